@@ -569,6 +569,8 @@ class FA:
     def _variant_of(self, x):
         if x.op == "agg" and len(x.args) >= 3 and isinstance(x.args[1], int) and self._is_enum_agg(x):
             return x.args[1]
+        if x.op == "call" and isinstance(x.args[0], str) and x.args[0].endswith("::from_residual") and "option::Option<T> as" in x.args[0]:
+            return 0          # Option's residual is None
         if x.op == "call" and isinstance(x.args[0], str) and x.args[0].endswith("::from_residual"):
             return 1
         return None
@@ -639,8 +641,8 @@ class FA:
                         cands.append(w)
                     continue
                 if w.op == "call" and isinstance(w.args[0], str) and w.args[0].endswith("::from_residual"):
-                    if k == 1:
-                        cands.append(w)          # a residual of a Result is an Err (variant 1)
+                    if k == (0 if "option::Option<T> as" in w.args[0] else 1):
+                        cands.append(w)          # a residual of a Result is an Err (variant 1), of an Option None (variant 0)
                     continue
                 if w.op == "phi":
                     x = self._select_variant(w, k, depth + 1)
